@@ -60,6 +60,9 @@ type Violation struct {
 	// Sched: found by a harness that explores schedules (vPreemptAtLocks): the
 	// native confirmation is the harness's stress function, not a replay.
 	Sched bool `json:"sched,omitempty"`
+	// SchedTrace: the goroutine switches of the failing path (who ran, where it
+	// stopped), for harnesses that explore schedules.
+	SchedTrace []string `json:"sched_trace,omitempty"`
 }
 
 func (v *Violation) Signature() string {
@@ -173,6 +176,8 @@ type worker struct {
 	preempted   int
 	usesSched   bool
 	preemptOn   map[*value]bool
+	preemptChans bool // decision points at channel / select / sync.Map operations too (sched.go)
+	schedLog     []string
 	fcov   map[*ssa.Function]map[ssa.Instruction]bool
 	stubs  map[string]int
 	strFacts []strFact
@@ -399,7 +404,7 @@ func (w *worker) runPath(fn *ssa.Function, it *workItem) {
 	w.held = map[*value]bool{}
 	w.heldBy = map[*value]*gor{}
 	w.guards = nil
-	w.preemptLeft, w.preempted, w.usesSched, w.preemptOn = 0, 0, false, nil
+	w.preemptLeft, w.preempted, w.usesSched, w.preemptOn, w.preemptChans, w.schedLog = 0, 0, false, nil, false, nil
 	w.strFacts = nil
 	w.side = map[*value]*omap{}
 	w.clock = nil
@@ -679,6 +684,33 @@ func (w *worker) decide(c *Term) bool {
 	return side
 }
 
+// decideFresh is decide for the condition "v == 1" over a 1-bit input v that
+// was created just now and appears in no constraint: both sides are feasible
+// by construction, so no solver query is needed (scheduling decisions).
+func (w *worker) decideFresh(v *Term) bool {
+	c := mkEq(v, mkConst(1, 1))
+	if w.local != nil || w.pos < len(w.item.prefix) || w.m == nil || v.op != OpVar {
+		return w.decide(c)
+	}
+	site := w.siteID()
+	w.nDec++
+	om := newModel()
+	for k, x := range w.m.bv {
+		om.bv[k] = x
+	}
+	for k, x := range w.m.str {
+		om.str[k] = x
+	}
+	om.bv[v.name] = 1
+	np := make([]dec, len(w.taken)+1)
+	copy(np, w.taken)
+	np[len(w.taken)] = dec{b: true, site: site}
+	w.ex.push(&workItem{prefix: np, m: om})
+	w.assertPC(mkNot(c))
+	w.taken = append(w.taken, dec{b: false, site: site})
+	return false
+}
+
 // assume constrains the path; an unsatisfiable assumption ends it silently.
 func (w *worker) assume(c *Term) {
 	if w.local != nil {
@@ -897,6 +929,9 @@ func (w *worker) violationWithModel(kind, label, msg string, m *model) {
 	v := &Violation{Kind: kind, Label: label, Msg: msg, Site: w.where(), Harness: w.ex.cfg.Harness}
 	v.Tags = append(v.Tags, w.tags...)
 	v.Sched = w.usesSched
+	if w.usesSched {
+		v.SchedTrace = append([]string{}, w.schedLog...)
+	}
 	v.Inputs = w.inputVals(m)
 	v.Stack = w.i.stackTrace()
 	if kind == "panic" && w.panicStack != nil {
@@ -909,6 +944,12 @@ func (w *worker) violationWithModel(kind, label, msg string, m *model) {
 			fn = v.Stack[0]
 		}
 		v.Label = kind + "@" + fn
+		// channel misuse: two different defects can end in the same function
+		for _, what := range []string{"close of closed channel", "send on closed channel"} {
+			if strings.Contains(msg, what) {
+				v.Label += ":" + strings.ReplaceAll(what, " ", "-")
+			}
+		}
 	}
 	sig := v.Signature() + "|" + strings.Join(v.Tags, ",")
 	w.ex.mu.Lock()
